@@ -612,3 +612,8 @@ VARIANTS += [
 """,
         "    def _dequeue(self):\n", note='slot store + counter extracted (parameter renamed)'),
 ]
+
+VARIANTS += [
+    V('C11-E21', 'E', ALL, WK, 'Worker.start', r'(\n        )try:\n(\s+)if self\.batch_size > 1:', r'\1logger.debug("worker %s starts", self.name)\1try:\n\2if self.batch_size > 1:', note='logging before the guarded region'),
+    V('C11-E22', 'E', ALL, WK, 'Worker.run', r'(\n        )obj\.start\(q_in=q_in, q_out=q_out\)', r'\1logger.info("worker %s is up", obj.name)\1obj.start(q_in=q_in, q_out=q_out)'),
+]
